@@ -46,15 +46,17 @@ def build_site(root: Path, project_md: str = "project.md", cli=None, graphs_real
     Raises whatever escapes ford.main (SystemExit included)."""
     import ford
     fordapi.reset_global_state()
-    text = (root / project_md).read_text(encoding="utf-8")
+    pfile = root / project_md
+    text = pfile.read_text(encoding="utf-8")
     buf = io.StringIO()
     cwd = os.getcwd()
     cli = dict(cli or {})
+    pdir = pfile.parent          # options are relative to the project file (ford.initialize does the same)
     try:
-        os.chdir(root)
+        os.chdir(pdir)
         with contextlib.redirect_stdout(buf), contextlib.redirect_stderr(buf):
-            docs, data = ford.load_settings(text, root, project_md)
-            data, docs = ford.parse_arguments(cli, docs, data, root)
+            docs, data = ford.load_settings(text, pdir, pfile.name)
+            data, docs = ford.parse_arguments(cli, docs, data, pdir)
             ford.main(data, docs)
     finally:
         os.chdir(cwd)
